@@ -44,8 +44,8 @@ pub fn string_size(this: &Str) -> (n: usize) ensures n == this@.len()     //@ cl
 
 //@ item string_to_bool file=src/core/string.rs block="impl StringExt for String" fn=to_bool
 //@ rw R2 + re⟦\bself\b⟧ => ⟦this⟧
-//@ rw R1 1 ⟦x == "false"⟧ => ⟦x.eq_lit("false")⟧
-//@ rw R1 1 ⟦x == "0"⟧ => ⟦x.eq_lit("0")⟧
+//@ rw R1 * ⟦x == "false"⟧ => ⟦x.eq_lit("false")⟧
+//@ rw R1 * ⟦x == "0"⟧ => ⟦x.eq_lit("0")⟧
 pub fn string_to_bool(this: &Str) -> (b: bool)
     ensures b == !(this@.len() == 0 || lower(this@) == "false"@ || lower(this@) == "0"@)     //@ clause to_bool.false_exactly_for_empty_0_false [C19]
 //@ body
